@@ -88,7 +88,16 @@ def run(ctx, rep, tier):
                 continue
             n_raise += 1
             key = (q, cls)
-            if (q, r.lineno) in dead:
+            local = None
+            x = r
+            while x in model.parents and x is not f:
+                child, x = x, model.parents[x]
+                if isinstance(x, ast.Try) and any(child is s_ for s_ in x.body) and any(h.type is not None and re.search(r"\b(%s|Exception)\b" % re.escape(cls), ast.unparse(h.type)) for h in x.handlers):
+                    local = x
+                    break
+            if local is not None:
+                rep.ok("C18.a", q, f"raise {cls}: caught by the enclosing try of the same function (line {local.lineno})")
+            elif (q, r.lineno) in dead:
                 rep.ok("C18.a", q, f"raise {cls}: dead - {dead[(q, r.lineno)]}")
             elif key in RAISE_TRIAGE:
                 reqs = RAISE_REQUIRES.get(key, [])
